@@ -724,7 +724,13 @@ impl Stringify for Value {
                     end_location: &Range<Position>,
                 ) -> FmtResult {
                     match expr {
-                        Expression::LitStr { value, location } => {
+                        // (a white space string must stay a binding: as static text it would be dropped)
+                        Expression::LitStr { value, location }
+                            if value.is_empty()
+                                || !value
+                                    .chars()
+                                    .all(|c| matches!(c, ' ' | '\x09'..='\x0D')) =>
+                        {
                             stringifier.write_token(&escape_html_body(value), None, location)?;
                             return Ok(());
                         }
